@@ -2,11 +2,13 @@
 
 Decided by spec/CommitTx.tla:
   leg A  MC_CommitTx     TLC enumerates the matrix (channel setups x commitment contents x single-field mutations
-                         of the canonical transaction and of the witness scripts), writes it for the harness and
+                         of the canonical transaction and of the witness scripts x histories: fresh number / retry,
+                         each also with a SIGNER RESTART before the judged requests), writes it for the harness and
                          model-checks the code-shaped StepSem / StepRaw against the reference on every case
   bind   harness `committx run`: every base through the real sign_counterparty_commitment_tx_phase2 (semantic)
                          and every mutation through the real sign_counterparty_commitment_tx (raw) of a real
-                         channel whose state was reached through the public API; the canonical bytes are also
+                         channel whose state was reached through the public API (histories with a restart: on the
+                         signer restored from a copy of its store); the canonical bytes are also
                          built with LDK's CommitmentTransaction from the model's numbers; signatures are
                          verified with secp256k1 against the sighashes of the canonical / submitted bytes
   leg B  ImplCommitTx    TLC re-judges every logged concrete case with the reference predicate and the signature
@@ -58,10 +60,11 @@ def leg_a(d, tier, timeout, bounds_file):
                  env=dict(_sw(), CT_TIER=tier, CT_OUT=cases, CT_BOUNDS=bounds_file),
                  workers=8, timeout=timeout, extra=["-continue", "-seed", str(vlib.seed())],
                  name="mc-committx-%s%s" % (tier, "-private" if PRIVATE else ""))
-    m = re.search(r'<<"CT_MATRIX", (\d+), (\d+), (\d+)>>', r["out"])
+    m = re.search(r'<<"CT_MATRIX", (\d+), (\d+), (\d+), (\d+)>>', r["out"])
     if not m:
         raise vlib.ToolError("MC_CommitTx printed no matrix statistics:\n" + r["out"][-2000:])
-    r["matrix"] = {"bases": int(m.group(1)), "cases": int(m.group(2)), "retries": int(m.group(3))}
+    r["matrix"] = {"bases": int(m.group(1)), "cases": int(m.group(2)), "retries": int(m.group(3)),
+                   "restart_bases": int(m.group(4))}
     if "TypeOK" in r["violated"]:
         raise vlib.ToolError("MC_CommitTx: TypeOK violated")
     r["cases_file"] = cases
@@ -118,7 +121,9 @@ def finding_key(v):
         # of the base's raw requests distinguishes the finding
         edges = edges[:1] if edges[:1] == ["wide_vout"] else []
     edge = ",".join(edges) or "-"
-    return "%s:%s:%s:%s%s" % (kinds, rules, _mut_name(v), edge, "" if v["hist"] == "fresh" or v.get("ep") else ":" + v["hist"])
+    # a history with a signer restart always names the class (also for a second request)
+    plain = v["hist"] == "fresh" or (v.get("ep") and not v["hist"].startswith("restart"))
+    return "%s:%s:%s:%s%s" % (kinds, rules, _mut_name(v), edge, "" if plain else ":" + v["hist"])
 
 
 def _base_line(cases_file, b):
@@ -197,6 +202,12 @@ def run(pid, tier):
         raise vlib.ToolError("vacuity guard: no canonical request was granted / no signature was returned")
     if not rep["retries_identical_same_signatures"] or not rep["retries_changed_refused"]:
         raise vlib.ToolError("vacuity guard (retries): no identical retry returned the first signatures / no changed retry was refused")
+    if not a["matrix"]["restart_bases"] or not rep["restart_bases"]:
+        raise vlib.ToolError("vacuity guard (restarts): the matrix has no base with a signer restart")
+    if not (rep["restart_sem_ok"] and rep["restart_sem_retry_ok"] and rep["restart_htlc_sigs"] and rep["restart_raw_granted"]
+            and rep["restart_retries_accepted"]):
+        raise vlib.ToolError("vacuity guard (restarts): a restored signer never answered a semantic request / a retry / "
+                             "a raw request with a signature: %s" % json.dumps({k: v for k, v in rep.items() if k.startswith("restart_")}))
     viols = _violations(rep, a["cases_file"])
     if bool(viols) != bool(b["violated"]):
         raise vlib.ToolError("ImplCommitTx: invariant verdict %s and report (%d violations) disagree" % (b["violated"], len(viols)))
@@ -216,6 +227,12 @@ def run(pid, tier):
                 "bases": rep["bases"], "bases_refused_by_setup_channel": rep["setup_refused"],
                 "requests_not_made_for_them": rep["skipped"], "raw_requests_judged": rep["raw"], "semantic_accepted": rep["sem_ok"],
                 "semantic_retries_accepted": rep["sem_retry_ok"], "htlc_signatures_verified": rep["htlc_sigs"],
+                "bases_with_signer_restart": rep["restart_bases"],
+                "semantic_accepted_by_restored_signer": rep["restart_sem_ok"],
+                "semantic_with_htlc_signatures_by_restored_signer": rep["restart_htlc_sigs"],
+                "semantic_retry_of_number_signed_before_restart_accepted": rep["restart_sem_retry_ok"],
+                "raw_granted_by_restored_signer": rep["restart_raw_granted"],
+                "retries_accepted_by_restored_signer": rep["restart_retries_accepted"],
                 "raw_granted": rep["granted"], "raw_granted_canonical_request": rep["granted_canonical_request"],
                 "raw_granted_by_mutation": rep["granted_kinds"], "reference_must_refuse": rep["must_refuse"],
                 "real_verdict_tags": rep["real_tags"], "violating_records": rep["nviolations"],
@@ -255,7 +272,10 @@ def run(pid, tier):
                        "the canonical bytes (cross-built with LDK) and the submitted bytes, (c) TLC re-judges every "
                        "logged concrete case: raw Ok on a non-canonical transaction, a signature that is not for the "
                        "canonical transaction, or semantic-accepted content whose canonical transaction the raw entry "
-                       "point refuses or signs differently is a violation",
+                       "point refuses or signs differently is a violation; (d) for a subset of setups x contents the "
+                       "signer is restored from a copy of its store (after set-up and the preceding commitments, or "
+                       "after the first request for the number) and all requests are made on the restored signer: the "
+                       "same monitors judge them (CommitTx!Restart)",
     }
     vlib.write_evidence(pid, tier, "model_checking", cov,
                         ["byte-exact serialisation, SHA-256, RIPEMD-160 and secp256k1 ECDSA are outside TLA+: the abstract "
@@ -271,6 +291,9 @@ def run(pid, tier):
                          "setup_channel); commitment numbers 0..3, at most 4 HTLCs, default regtest policy; both contest "
                          "delays at the smallest / an ordinary (144) / the largest value setup_channel accepts (bounds read "
                          "from the real policy, min-1 and max+1 shown refused by real setup_channel calls)",
+                         "restarts: the signer is restored with Node::restore_nodes from a copy of the in-memory KVV store "
+                         "(JSON format) at two points of a base's history (before the first request for the number / "
+                         "after it); restarts between the raw requests of one base are not explored",
                          "TLC and the Json/IOUtils community modules"],
                         time.time() - t0, unknown + known)
     return code
